@@ -9,7 +9,7 @@ use serde_json::json;
 use std::collections::BTreeMap;
 use std::path::{Path, PathBuf};
 use std::sync::Arc;
-use surrealkv::{Durability, Error, LSMIterator, Mode, ReadOptions, Transaction, Tree, TreeBuilder, WriteOptions};
+use surrealkv::{Durability, Error, LSMIterator, Mode, ReadOptions, Transaction, Tree, WriteOptions};
 
 #[derive(Clone, Debug)]
 pub struct Failure {
@@ -61,6 +61,15 @@ pub struct ExecOpts {
     pub allow_arena_full: bool,
     /// never generate two writes of one key with equal timestamps
     pub no_ties: bool,
+    /// emit trace markers through write(-4242, ..) (recorded by the LD_PRELOAD shim of the crash engine)
+    pub markers: bool,
+    /// a commit that returns an error is recorded (marker, stats) and the run goes on (fault-injection workloads)
+    pub tolerate_commit_errors: bool,
+    /// skip the final sweep and the final close (the crash engine cuts the run off itself)
+    pub no_final: bool,
+    /// do not compare the store with the model at all (second-generation crash workloads start from a recovered
+    /// image the child knows nothing about; the parent does the judging)
+    pub no_sweeps: bool,
 }
 
 impl Default for ExecOpts {
@@ -76,6 +85,10 @@ impl Default for ExecOpts {
             single_write_per_key: false,
             allow_arena_full: false,
             no_ties: false,
+            markers: false,
+            tolerate_commit_errors: false,
+            no_final: false,
+            no_sweeps: false,
         }
     }
 }
@@ -88,6 +101,7 @@ pub struct Outcome {
     pub model: Model,
     /// number of commits that were in tables (not only in the WAL) when the run ended
     pub flushed_commits: usize,
+    pub failed_writes: Vec<(Key, Op)>,
 }
 
 #[derive(Clone, Debug)]
@@ -126,8 +140,10 @@ struct Slot {
     h: usize,
     pending: Pending,
     begun_at_phys: u64,
+    #[allow(dead_code)]
     begun_at_commit: usize,
     compacted_after_commit: bool,
+    #[allow(dead_code)]
     flushed_after_commit: bool,
 }
 
@@ -155,9 +171,19 @@ pub struct Exec<'a> {
     arena_rotations: u64,
     key_window: Option<(u16, u16)>,
     flushed_commits: usize,
+    /// writes of commits that returned an error (fault injection): none of them may ever be visible
+    pub failed_writes: Vec<(Key, Op)>,
 }
 
 type R<T> = std::result::Result<T, Failure>;
+
+pub fn marker(on: bool, text: &str) {
+    if on {
+        unsafe {
+            libc::write(-4242, text.as_ptr() as *const libc::c_void, text.len());
+        }
+    }
+}
 
 fn err_name(e: &Error) -> String {
     format!("{e:?}").chars().take(200).collect()
@@ -197,7 +223,7 @@ impl<'a> Exec<'a> {
 
     fn open_tree(&mut self) -> std::result::Result<(), Error> {
         let o = self.cfg.options(&self.db, Some(self.clock.clone()), self.opts.manual);
-        let t = TreeBuilder::with_options(o).build()?;
+        let t = crate::util::build_tree_retry(o)?;
         self.tree = Some(t);
         Ok(())
     }
@@ -424,11 +450,22 @@ impl<'a> Exec<'a> {
 
     /// Compare the whole visible state (from a fresh transaction) with the model at its full horizon.
     fn sweep(&mut self, what: &str) -> R<()> {
+        if self.opts.no_sweeps {
+            return Ok(());
+        }
         let h = self.model.len();
         let txn = match self.tree().begin_with_mode(Mode::ReadOnly) {
             Ok(t) => t,
             Err(e) => return self.fail("begin-error", format!("{what}: begin failed: {}", err_name(&e))),
         };
+        // writes of commits that returned an error must not be visible (values carry unique tags)
+        for (k, op) in self.failed_writes.iter() {
+            if let (Some(v), Ok(Some(g))) = (op.value(), txn.get(k.as_slice())) {
+                if g == v.bytes() && self.model.latest(h, k) != Some(v) {
+                    return self.fail_aux("failed-commit-visible", format!("{what}: key {} shows the value {:?} written by a transaction whose commit() returned an error", key_str(k), v), self.aux());
+                }
+            }
+        }
         // point reads of every pool key and every key the model knows
         let mut keys: Vec<Key> = self.case.pool.clone();
         for k in self.model.all_keys() {
@@ -879,8 +916,12 @@ impl<'a> Exec<'a> {
             }
             Step::FlushWal { sync } => {
                 if let Err(e) = self.tree().flush_wal(*sync) {
+                    if self.opts.tolerate_commit_errors {
+                        return Ok(());
+                    }
                     return self.fail("physical-error", format!("flush_wal failed: {}", err_name(&e)));
                 }
+                marker(self.opts.markers, &format!("W {}", if *sync { 1 } else { 0 }));
             }
             Step::AdvanceClock { dt } => {
                 self.clock.advance(*dt as u64);
@@ -996,6 +1037,7 @@ impl<'a> Exec<'a> {
         let layout = self.tree.as_ref().map(|t| t.verif_layout()).unwrap_or_default();
         let aux_before = self.aux();
         self.close_tree().await?;
+        marker(self.opts.markers, "C");
         if let Err(e) = self.open_tree() {
             return self.fail_aux("reopen-failed", format!("{what}: build() failed: {}", err_name(&e)), aux_before);
         }
@@ -1017,7 +1059,7 @@ impl<'a> Exec<'a> {
             return self.fail("harness-io", format!("copy checkpoint: {e}"));
         }
         let o = self.cfg.options(&tmp, Some(self.clock.clone()), self.opts.manual);
-        let t = match TreeBuilder::with_options(o).build() {
+        let t = match crate::util::build_tree_retry(o) {
             Ok(t) => t,
             Err(e) => return self.fail("checkpoint-open-failed", format!("opening checkpoint dir standalone failed: {}", err_name(&e))),
         };
@@ -1395,8 +1437,22 @@ impl<'a> Exec<'a> {
         self.make_room(bytes)?;
         let wal_before = self.tree().verif_active_wal_number();
         let clock_before = self.clock.peek();
+        let cidx = self.model.len();
+        if !pend.is_empty() {
+            marker(self.opts.markers, &format!("B {cidx}"));
+        }
         if let Err(e) = txn.commit().await {
+            if self.opts.tolerate_commit_errors {
+                marker(self.opts.markers, &format!("F {cidx}"));
+                self.stats.inc("failed_commits");
+                self.failed_writes.extend(pend.iter().map(|(k, pe)| (k.clone(), pe.op)));
+                drop(txn);
+                return Ok(());
+            }
             return self.fail_aux("commit-error", format!("one-shot commit failed: {}", err_name(&e)), self.aux());
+        }
+        if !pend.is_empty() {
+            marker(self.opts.markers, &format!("A {cidx} {}", if sync { 1 } else { 0 }));
         }
         drop(txn);
         self.note_commit(bytes, wal_before);
@@ -1462,6 +1518,7 @@ pub async fn run_case(case: &Case, dir: &Path, opts: &ExecOpts) -> Outcome {
         arena_rotations: 0,
         key_window: None,
         flushed_commits: 0,
+        failed_writes: Vec::new(),
     };
     let failure = run_inner(&mut ex).await.err();
     // best-effort teardown
@@ -1473,7 +1530,7 @@ pub async fn run_case(case: &Case, dir: &Path, opts: &ExecOpts) -> Outcome {
             tokio::task::yield_now().await;
         }
     }
-    Outcome { stats: ex.stats, failure, answers: ex.answers, model: ex.model, flushed_commits: ex.flushed_commits }
+    Outcome { stats: ex.stats, failure, answers: ex.answers, model: ex.model, flushed_commits: ex.flushed_commits, failed_writes: ex.failed_writes }
 }
 
 async fn run_inner(ex: &mut Exec<'_>) -> R<()> {
@@ -1483,7 +1540,17 @@ async fn run_inner(ex: &mut Exec<'_>) -> R<()> {
     let steps = &ex.case.steps;
     for (i, st) in steps.iter().enumerate() {
         ex.step_idx = i;
-        ex.step(st).await?;
+        marker(ex.opts.markers, &format!("S {i}"));
+        match ex.step(st).await {
+            Err(f) if ex.opts.tolerate_commit_errors && matches!(f.class.as_str(), "physical-error" | "close-error" | "begin-error" | "write-error") => {
+                ex.stats.inc("tolerated_errors");
+            }
+            r => r?,
+        }
+    }
+    marker(ex.opts.markers, "E");
+    if ex.opts.no_final {
+        return Ok(());
     }
     ex.step_idx = steps.len();
     ex.drop_all_slots();
